@@ -56,6 +56,9 @@ def run(tier):
             cases.append((mname, mb))
         for call in ("validate_checksums", "find_valid", "validate_data"):
             cases.append((sname + "-orig+mid:" + call, buf))
+        # the unmodified file read while the kernel delivers it in short pieces (every read(2) returns at most cap bytes)
+        for cap in (7, 1000, 20000):
+            cases.append((sname + "-orig+cap:%d" % cap, buf))
     if tier == "thorough":
         # every single-bit flip of every body byte of the two smallest files, every truncation length
         for (sname, buf, chunks) in sorted(seeds, key=lambda s_: len(s_[1]))[:2]:
@@ -88,6 +91,13 @@ def run(tier):
             L = scr.split("\n"); k = [j for j, l in enumerate(L) if l.startswith("read ")][0]
             L.insert(k + 1, "%s 0" % (name.split("+mid:")[1] if "+mid:" in name else ("validate_checksums", "find_valid", "validate_data")[(i // 3) % 3])); scr = "\n".join(L)
             name = name + ("+midvalidate" if "+mid:" not in name else "")
+        if "+cap:" in name:
+            scr = scr.replace("init_read 0 0\n", "init_read 0 0\nshim_cap 0 %s\n" % name.split("+cap:")[1], 1)
+        elif i % 7 == 4 and "validate" not in name:
+            # from the open on, every read(2) on the input returns at most a few bytes (a pipe, a network file system, a signal):
+            # whatever the reader then reports, success still means the file's exact content
+            scr = scr.replace("init_read 0 0\n", "init_read 0 0\nshim_cap 0 %d\n" % (7, 100, 1000, 20000, 33000)[(i // 7) % 5], 1)
+            name = name + "+cappedreads"
         scripts.append(scr)
         meta.append((cid, name, path, sink, rf))
     nproc = 12
